@@ -90,11 +90,11 @@ where
 
 //@ C06 quick 800 AVX2 stripe memory checks, DNA, L=1000 (R=32, last column short: the transpose block must not read past the sequence), then re-stripe L=40 | kani=--no-assertion-reach-checks | mem=12
 harness!(avx2mem, 1100, c06_avx2_stripe_dna_l1000, stripe_body::<Dna, 1000, 40>());
-//@ C06 thorough 10800 AVX2 stripe memory checks, DNA, L=1024 (one full 32x32 block), then re-stripe L=0 | kani=--no-assertion-reach-checks | mem=20
+//@ C06 thorough 1800 AVX2 stripe memory checks, DNA, L=1024 (one full 32x32 block), then re-stripe L=0 | kani=--no-assertion-reach-checks | mem=20
 harness!(avx2mem, 1100, c06_avx2_stripe_dna_l1024, stripe_body::<Dna, 1024, 0>());
 //@ C06 quick 800 AVX2 stripe memory checks, DNA, L=993 (smallest length entering the block loop with a partial last column) | kani=--no-assertion-reach-checks | mem=12
 harness!(avx2mem, 1100, c06_avx2_stripe_dna_l993, stripe_body::<Dna, 993, 33>());
-//@ C06 thorough 10800 AVX2 stripe memory checks, protein, L=1056 (R=33: one block + one scalar row) | kani=--no-assertion-reach-checks | mem=20
+//@ C06 thorough 1800 AVX2 stripe memory checks, protein, L=1056 (R=33: one block + one scalar row) | kani=--no-assertion-reach-checks | mem=20
 harness!(avx2mem, 1100, c06_avx2_stripe_protein_l1056, stripe_body::<Protein, 1056, 1>());
 /// AVX2 / dispatcher u8 scoring on an exactly-sized (cloned) sequence with M-1 look-ahead rows
 fn score_u8_edge_body<const R: usize, const M: usize>(arm: lightmotif::pli::dispatch::Dispatch) {
@@ -130,19 +130,19 @@ fn score_u8_edge_body<const R: usize, const M: usize>(arm: lightmotif::pli::disp
 
 //@ C06 quick 800 AVX2 u8 shuffle scoring + max/argmax via dispatcher, DNA, R=2, M=2, exactly-sized sequence buffer
 harness!(avx2, 40, c06_avx2_score_u8_edge_r2_m2, score_u8_edge_body::<2, 2>(lightmotif::pli::dispatch::Dispatch::Avx2));
-//@ C06 thorough 3600 AVX2 u8 shuffle scoring + max/argmax via dispatcher, DNA, R=2, M=3, exactly-sized sequence buffer
+//@ C06 quick 800 AVX2 u8 shuffle scoring + max/argmax via dispatcher, DNA, R=2, M=3, exactly-sized sequence buffer
 harness!(avx2, 40, c06_avx2_score_u8_edge_r2_m3, score_u8_edge_body::<2, 3>(lightmotif::pli::dispatch::Dispatch::Avx2));
 //@ C06 quick 800 generic u8 scoring + max/argmax via dispatcher (SSE2 arm), DNA, R=1, M=2, exactly-sized sequence buffer
 harness!(avx2, 40, c06_generic_score_u8_edge_r1_m2, score_u8_edge_body::<1, 2>(lightmotif::pli::dispatch::Dispatch::Sse2));
 //@ C06 quick 800 AVX2 permute scoring + max/argmax, DNA, R=2, M=2, exactly M-1 look-ahead rows, last row range
 harness!(avx2, 40, c06_avx2_score_edge_dna_r2_m2, score_edge_body::<Dna, 2, 2>());
-//@ C06 thorough 3600 AVX2 permute scoring + max/argmax, DNA, R=2, M=3, exactly M-1 look-ahead rows, last row range
+//@ C06 quick 800 AVX2 permute scoring + max/argmax, DNA, R=2, M=3, exactly M-1 look-ahead rows, last row range
 harness!(avx2, 40, c06_avx2_score_edge_dna_r2_m3, score_edge_body::<Dna, 2, 3>());
 //@ C06 quick 800 AVX2 gather scoring + max/argmax, protein, R=1, M=2, symbol index 20 everywhere
 harness!(avx2, 40, c06_avx2_score_edge_protein_r1_m2, score_edge_body::<Protein, 1, 2>());
-//@ C06 thorough 3600 AVX2 stripe memory checks, DNA, L=1023 | kani=--no-assertion-reach-checks | mem=20
+//@ C06 extended 3600 AVX2 stripe memory checks, DNA, L=1023 | kani=--no-assertion-reach-checks | mem=20
 harness!(avx2mem, 1100, c06_avx2_stripe_dna_l1023, stripe_body::<Dna, 1023, 1000>());
-//@ C06 thorough 3600 AVX2 stripe memory checks, DNA, L=2047 (R=64: two blocks, partial last column) | kani=--no-assertion-reach-checks | mem=20
+//@ C06 thorough 1850 AVX2 stripe memory checks, DNA, L=2047 (R=64: two blocks, partial last column) | kani=--no-assertion-reach-checks | mem=20
 harness!(avx2mem, 2100, c06_avx2_stripe_dna_l2047, stripe_body::<Dna, 2047, 32>());
-//@ C06 thorough 3600 AVX2 stripe memory checks, DNA, L=1025 (R=33) | kani=--no-assertion-reach-checks | mem=20
+//@ C06 thorough 1800 AVX2 stripe memory checks, DNA, L=1025 (R=33) | kani=--no-assertion-reach-checks | mem=20
 harness!(avx2mem, 1100, c06_avx2_stripe_dna_l1025, stripe_body::<Dna, 1025, 1024>());
